@@ -221,7 +221,10 @@ func runWorker(prop, tier string, seed int64, w int) (out workerOut) {
 	}
 	stats := map[string]interface{}{}
 	steps, ok, fail, blocks := 0, 0, 0, 0
+	resp, respOK := 0, 0
 	for _, e := range engines {
+		resp += e.Respelled
+		respOK += e.RespelledOK
 		steps += e.Step
 		ok += e.TxOK
 		fail += e.TxFail
@@ -241,6 +244,8 @@ func runWorker(prop, tier string, seed int64, w int) (out workerOut) {
 	cov["transactions_accepted"] = ok
 	cov["transactions_rejected"] = fail
 	cov["blocks"] = blocks
+	cov["transactions_with_upper_case_address_spelling"] = resp
+	cov["transactions_with_upper_case_address_spelling_accepted"] = respOK
 	cov["by_message_type"] = stats
 	cov["genesis_variants"] = pl.variants
 	if len(runErrs) > 0 {
